@@ -108,6 +108,9 @@ type InhibitRule struct {
 type Interval struct {
 	Name   string   `json:"name"`
 	Ranges [][2]int `json:"ranges"` // [startMinute, endMinute) of the day, UTC
+	// Twice: the definition lists the same entry twice (entries are alternatives, so the meaning is unchanged; the
+	// implementation then reports the name once per matching entry)
+	Twice bool `json:"twice,omitempty"`
 }
 
 type Config struct {
@@ -228,9 +231,12 @@ func (c *Config) YAML() string {
 	if len(c.Intervals) > 0 {
 		sb.WriteString("time_intervals:\n")
 		for _, iv := range c.Intervals {
-			sb.WriteString("- name: " + iv.Name + "\n  time_intervals:\n  - times:\n")
-			for _, rg := range iv.Ranges {
-				sb.WriteString(fmt.Sprintf("    - start_time: '%02d:%02d'\n      end_time: '%02d:%02d'\n", rg[0]/60, rg[0]%60, rg[1]/60, rg[1]%60))
+			sb.WriteString("- name: " + iv.Name + "\n  time_intervals:\n")
+			for n := 0; n < 1 || (n < 2 && iv.Twice); n++ {
+				sb.WriteString("  - times:\n")
+				for _, rg := range iv.Ranges {
+					sb.WriteString(fmt.Sprintf("    - start_time: '%02d:%02d'\n      end_time: '%02d:%02d'\n", rg[0]/60, rg[0]%60, rg[1]/60, rg[1]%60))
+				}
 			}
 		}
 	}
